@@ -58,6 +58,27 @@ def _is_ellipsis_stmt(st):
     return isinstance(st, ast.Expr) and isinstance(st.value, ast.Constant) and st.value.value is Ellipsis
 
 
+_NEG_OPS = {ast.NotEq: ast.Eq, ast.NotIn: ast.In, ast.IsNot: ast.Is}
+_POS_OPS = {v: k for k, v in _NEG_OPS.items()}
+
+
+def is_negative(test):
+    return (isinstance(test, ast.UnaryOp) and isinstance(test.op, ast.Not)) or (isinstance(test, ast.Compare) and len(test.ops) == 1 and type(test.ops[0]) in _NEG_OPS)
+
+
+def negation(test):
+    """the logical negation of a test in the spelling the canonical form uses: ``not c`` <-> ``c``, ``a != b`` <-> ``a == b``,
+    ``a not in b`` <-> ``a in b``, ``a is not b`` <-> ``a is b``"""
+    if isinstance(test, ast.UnaryOp) and isinstance(test.op, ast.Not):
+        return test.operand
+    if isinstance(test, ast.Compare) and len(test.ops) == 1:
+        k = type(test.ops[0])
+        if k in _NEG_OPS or k in _POS_OPS:
+            new = ast.Compare(test.left, [(_NEG_OPS.get(k) or _POS_OPS[k])()], test.comparators)
+            return ast.copy_location(new, test)
+    return ast.copy_location(ast.UnaryOp(ast.Not(), test), test)
+
+
 def _is_ellipsis(e):
     return isinstance(e, ast.Constant) and e.value is Ellipsis
 
@@ -136,26 +157,47 @@ class Pat:
             pats = pats[1:]
         if not pats:
             return out
-        for i, st in enumerate(body):
-            e = self._m(pats[0], st, dict(env))
-            if e is None:
-                continue
-            e2 = self._seq_rest(pats[1:], body[i + 1:], e)
-            if e2 is not None:
-                out.append(Match(st, e2))
+        for order in self._orders(pats):
+            for i, st in enumerate(body):
+                e = self._m(order[0], st, dict(env))
+                if e is None:
+                    continue
+                e2 = self._seq_rest(order[1:], body[i + 1:], e, _swapped=order is not pats)
+                if e2 is not None and not any(m.node is st for m in out):
+                    out.append(Match(st, e2))
         return out
 
-    def _seq_rest(self, pats, body, env):
+    @staticmethod
+    def _independent(a, b):
+        """two plain assignments `x = <no call, no attribute / item access>` that do not read each other's target: their order
+        carries no meaning, so a pattern listing them one way also describes the other way"""
+        def plain(st):
+            return isinstance(st, ast.Assign) and len(st.targets) == 1 and isinstance(st.targets[0], ast.Name) and not any(
+                isinstance(x, (ast.Call, ast.Await, ast.Yield, ast.YieldFrom, ast.NamedExpr, ast.Subscript, ast.Attribute)) for x in ast.walk(st.value))
+        if not (plain(a) and plain(b)):
+            return False
+        ta, tb = a.targets[0].id, b.targets[0].id
+        ra = {x.id for x in ast.walk(a.value) if isinstance(x, ast.Name)}
+        rb = {x.id for x in ast.walk(b.value) if isinstance(x, ast.Name)}
+        return ta != tb and ta not in rb and tb not in ra
+
+    def _orders(self, pats):
+        yield pats
+        if len(pats) >= 2 and self._independent(pats[0], pats[1]):
+            yield [pats[1], pats[0]] + list(pats[2:])
+
+    def _seq_rest(self, pats, body, env, _swapped=False):
         if not pats:
             return env
         if _is_ellipsis_stmt(pats[0]):
             return self._seq_rest(pats[1:], body, env)
-        for i, st in enumerate(body):
-            e = self._m(pats[0], st, dict(env))
-            if e is not None:
-                r = self._seq_rest(pats[1:], body[i + 1:], e)
-                if r is not None:
-                    return r
+        for order in (self._orders(pats) if not _swapped else [pats]):
+            for i, st in enumerate(body):
+                e = self._m(order[0], st, dict(env))
+                if e is not None:
+                    r = self._seq_rest(order[1:], body[i + 1:], e, _swapped=order is not pats)
+                    if r is not None:
+                        return r
         return None
 
     def _body(self, pbody, body, env):
@@ -220,21 +262,32 @@ class Pat:
                 env.update(e1)
                 return env
             wild = isinstance(p.test, ast.Name) and (p.test.id == _ANY or p.test.id.startswith(_EV))
-            flipped = ast.If(test=(p.test if wild else (p.test.operand if isinstance(p.test, ast.UnaryOp) and isinstance(p.test.op, ast.Not) else ast.UnaryOp(ast.Not(), p.test))), body=p.orelse, orelse=p.body)
+            flipped = ast.If(test=(p.test if wild else negation(p.test)), body=p.orelse, orelse=p.body)
             e2 = self._if(flipped, n, dict(env))
             if e2 is not None:
                 env.update(e2)
                 return env
             return None
-        if isinstance(p, ast.If) and not p.orelse and n.orelse and isinstance(p.test, ast.UnaryOp) and isinstance(p.test.op, ast.Not):
-            # `if not c: A` (pattern without else) also describes the else branch of `if c: ... else: A`
+        if isinstance(p, ast.If) and not p.orelse and n.orelse and isinstance(p.test, ast.Name) and (p.test.id == _ANY or p.test.id.startswith(_EV)):
+            # `if $_: A` (any test, no else in the pattern): A may be either branch of an if/else — which one is "the body"
+            # depends only on how the test is spelled
+            for branch in (n.body, n.orelse):
+                e1 = self._m(p.test, n.test, dict(env))
+                if e1 is not None:
+                    e1 = self._body(p.body, branch, e1)
+                if e1 is not None:
+                    env.update(e1)
+                    return env
+            return None
+        if isinstance(p, ast.If) and not p.orelse and n.orelse and is_negative(p.test):
+            # `if not c: A` / `if a is not b: A` (pattern without else) also describes the else branch of `if c: ... else: A`
             e1 = self._m(p.test, n.test, dict(env))
             if e1 is not None:
                 e1 = self._body(p.body, n.body, e1)
             if e1 is not None:
                 env.update(e1)
                 return env
-            e2 = self._m(p.test.operand, n.test, dict(env))
+            e2 = self._m(negation(p.test), n.test, dict(env))
             if e2 is not None:
                 e2 = self._body(p.body, n.orelse, e2)
             if e2 is not None:
@@ -398,8 +451,42 @@ def arms(if_node, cond, env=None):
     if m is not None:
         return if_node.body, if_node.orelse, m.env
     t = if_node.test
-    if isinstance(t, ast.UnaryOp) and isinstance(t.op, ast.Not):
-        m = pat(cond).matches(t.operand, env)
-        if m is not None:
-            return if_node.orelse, if_node.body, m.env
+    m = pat(cond).matches(negation(t), env)
+    if m is not None:
+        return if_node.orelse, if_node.body, m.env
     return None
+
+
+def guarded(stmts, cond, env=None):
+    """[(if node, statements run when ``cond`` holds, statements run otherwise, env)] for every ``if`` (elif included) below
+    ``stmts`` that tests ``cond`` in either polarity and either branch order — the form-independent way to ask "what happens
+    when cond is true"."""
+    from . import astutil as A
+    out = []
+    for n in A.walk_body(stmts if isinstance(stmts, list) else [stmts]):
+        if isinstance(n, ast.If):
+            r = arms(n, cond, env)
+            if r is not None:
+                out.append((n, r[0], r[1], r[2]))
+    return out
+
+
+def path_conditions(node, stop=None):
+    """The tests under which ``node`` runs, as texts in one spelling: for every enclosing ``if`` (up to ``stop``) the test
+    itself when the node sits in the body, its negation (``a not in b`` for ``a in b`` ...) when it sits in the else branch.
+    Form-independent: `if c: X else: Y` and `if not c: Y else: X` give the same answer for X and for Y."""
+    from . import astutil as A
+    out = []
+    child = node
+    for p in A.parents(node):
+        if p is stop:
+            break
+        if isinstance(p, ast.If):
+            in_body = any(s is child or A.contains_node(s, child) for s in p.body)
+            in_else = any(s is child or A.contains_node(s, child) for s in p.orelse)
+            if in_body:
+                out.append(ast.unparse(p.test))
+            elif in_else:
+                out.append(ast.unparse(negation(p.test)))
+        child = p
+    return out
